@@ -10,6 +10,7 @@ case "$which" in
   check) pkg=internal/check; src=check_findings_test.go;;
   expand) pkg=internal/expand; src=expand_findings_test.go;;
   relationtuple) pkg=internal/relationtuple; src=relationtuple_findings_test.go;;
+  c11) pkg=internal/check; src=c11_findings_test.go;;
   *) echo "unknown replay set $which"; exit 2;;
 esac
 cat > "$tmp/ov.json" <<EOT
